@@ -27,11 +27,14 @@ type Program struct {
 
 // G is a seeded generator context.
 type G struct {
-	R     *rand.Rand
-	Thor  bool // thorough tier
-	n     int
-	Regs  []string
-	steps []M
+	// SawExtreme: a literal with an exponent beyond +-10^6 was loaded (drivers reset it; they use it to keep operands at
+	// the ends of the exponent range from being added to operands in the middle: a 2^31-digit alignment)
+	SawExtreme bool
+	R          *rand.Rand
+	Thor       bool // thorough tier
+	n          int
+	Regs       []string
+	steps      []M
 }
 
 func New(seed int64, thorough bool) *G {
@@ -210,6 +213,9 @@ func Lit(neg bool, digits string, e int64) string {
 // Load emits the set-up pseudo-operation: give register z precision p (>= the digit count so that
 // nothing is rounded), mode m and the literal's value. The specification adopts its result.
 func (g *G) Load(z string, neg bool, digits string, e int64, p int, m int) {
+	if e > 1000000 || e < -1000000 {
+		g.SawExtreme = true
+	}
 	if p < len(digits) {
 		p = len(digits)
 	}
